@@ -1,0 +1,28 @@
+//go:build verif
+// +build verif
+
+package cgen
+
+// Exports for the /verif C04 harness (generated C computes what the Wuffs
+// source means): read-only views of the operator and type-name tables that
+// writeExpr* consult. Compiled only with -tags verif.
+
+import (
+	t "github.com/google/wuffs/lang/token"
+)
+
+// VerifNoSuchCOperator is noSuchCOperator.
+const VerifNoSuchCOperator = noSuchCOperator
+
+// VerifCOpName is cOpName: the C spelling (with its surrounding spaces) of a
+// Wuffs operator, or VerifNoSuchCOperator.
+func VerifCOpName(x t.ID) string { return cOpName(x) }
+
+// VerifCTypeName is cTypeNames[x] (the C type name of a base numeric type), or
+// "" when there is no entry.
+func VerifCTypeName(x t.ID) string {
+	if x < t.ID(len(cTypeNames)) {
+		return cTypeNames[x]
+	}
+	return ""
+}
